@@ -679,13 +679,17 @@ theorem vecLe_spec (a b : List Rat) (h : vecLe a b = true) :
   have := hall _ hm
   simpa [List.getD_eq_getElem?_getD, hj, hjb] using this
 
-/-- the content of a true one-sided witness -/
-structure LeSpec (A B : Problem) : Prop where
-  c : A.c = B.c
+/-- the feasibility part of a true one-sided witness -/
+structure LeFeas (A B : Problem) : Prop where
   l : vecLe A.l B.l = true
   u : vecLe B.u A.u = true
   bool : natsSubset A.boolVars B.boolVars = true
   rows : ∀ x, (∀ s ∈ B.rows, s.Sat x) → ∀ r ∈ A.rows, r.Sat x
+
+/-- the content of a true one-sided witness (equal objectives) -/
+structure LeSpec (A B : Problem) : Prop where
+  c : A.c = B.c
+  feas : LeFeas A B
 
 theorem rows_implied (as bs : List Row) (lams : List (List Rat)) (hlen : lams.length = as.length)
     (h : ((as.zip lams).all fun q => rowImplied q.1 bs q.2) = true) (x : Vec) (hx : ∀ s ∈ bs, s.Sat x) :
@@ -700,7 +704,7 @@ theorem rows_implied (as bs : List Row) (lams : List (List Rat)) (hlen : lams.le
 
 /-- if the unsplit bounds have equal length (as after `renameAlong`), feasibility passes from the tighter to the
     looser problem -/
-theorem LeSpec.relaxed {A B : Problem} (h : LeSpec A B) (hlu : A.u.length = A.l.length) (x : Vec) :
+theorem LeFeas.relaxed {A B : Problem} (h : LeFeas A B) (hlu : A.u.length = A.l.length) (x : Vec) :
     B.FeasibleRelaxed x → A.FeasibleRelaxed x := by
   rintro ⟨hb, hr⟩
   obtain ⟨hl1, hl2⟩ := vecLe_spec _ _ h.l
@@ -711,7 +715,7 @@ theorem LeSpec.relaxed {A B : Problem} (h : LeSpec A B) (hlu : A.u.length = A.l.
   have h2 := hu2 j (by omega)
   exact ⟨Rat.le_trans h1 hbj.1, Rat.le_trans hbj.2 h2⟩
 
-theorem LeSpec.feasible {A B : Problem} (h : LeSpec A B) (hlu : A.u.length = A.l.length) (x : Vec) :
+theorem LeFeas.feasible {A B : Problem} (h : LeFeas A B) (hlu : A.u.length = A.l.length) (x : Vec) :
     B.Feasible x → A.Feasible x := by
   rintro ⟨hf, hb⟩
   exact ⟨h.relaxed hlu x hf, fun j hj => hb j (natsSubset_mem _ _ h.bool j hj)⟩
@@ -719,5 +723,38 @@ theorem LeSpec.feasible {A B : Problem} (h : LeSpec A B) (hlu : A.u.length = A.l
 theorem LeSpec.value {A B : Problem} (h : LeSpec A B) (x : Vec) : A.value x = B.value x := by
   unfold Problem.value
   rw [h.c]
+
+/-! ### certified objectives -/
+
+theorem sum_map_sub {α} (l : List α) (f g : α → Rat) :
+    (l.map fun a => f a - g a).sum = (l.map f).sum - (l.map g).sum := by
+  induction l with
+  | nil => simp only [List.map_nil, List.sum_nil]; grind
+  | cons a rest ih => simp only [List.map_cons, List.sum_cons, ih]; grind
+
+theorem evalC_costDiff (cA cB : List Rat) (hlen : cA.length = cB.length) (x : Vec) :
+    evalC (costDiff cA cB) x = costAt cB 0 x - costAt cA 0 x := by
+  rw [costAt_eq_sum_range cB, costAt_eq_sum_range cA, hlen, ← sum_map_sub]
+  unfold costDiff evalC
+  rw [List.map_map]
+  congr 1
+  apply List.map_congr_left
+  intro j _
+  simp only [Function.comp, Nat.zero_add]
+  grind
+
+/-- a certified objective: on every point that satisfies `rows`, `-cB·x ≤ -cA·x` -/
+theorem costCert_sound (cA cB : List Rat) (rows : List Row) (lamC : List Rat)
+    (h : costCert cA cB rows lamC = true) (x : Vec) (hx : ∀ s ∈ rows, s.Sat x) :
+    - costAt cB 0 x ≤ - costAt cA 0 x := by
+  unfold costCert at h
+  rw [Bool.or_eq_true] at h
+  rcases h with h | h
+  · rw [of_decide_eq_true h]; exact Rat.le_refl
+  · rw [Bool.and_eq_true] at h
+    have hlen : cA.length = cB.length := of_decide_eq_true h.1
+    have := geCert_sound _ _ _ _ h.2 x hx
+    rw [evalC_costDiff cA cB hlen x] at this
+    grind
 
 end EAO.Split
